@@ -7,18 +7,26 @@ import (
 	"golang.org/x/tools/go/ssa"
 )
 
-// P14 a pointer that is nil on some path is not dereferenced on that path (decode scope).
+// P14 a pointer that is nil on some path is not dereferenced on that path (whole library; written for the decoders).
 //
 // The decoders build some parts only for some registers (`var extraData *X; if isRoot { extraData, err = ... }`) and
 // carry the pointer along; in SSA this is a phi with a nil edge. Obligation per dereference (field address, load,
-// array index through the pointer) of such a phi in a function of the decode scope: on every path from a nil edge to
+// array index through the pointer) of such a phi: on every path from a nil edge to
 // the dereference, a test contradicts it - the dereference is on the non-nil edge of a nil test of the pointer, or it
 // lies under the same condition (same SSA value, same polarity) that guarded the assignment. The walk from each nil
 // edge prunes the branches that the conditions known on that edge exclude; reaching the dereference is a finding: a
 // crafted register of the other kind (a non-root slab, say) makes the decoder panic instead of returning an error.
 func ruleP14(p *Prog, r *Report) {
 	const R = "P14"
-	scope, _ := p.decodeScope()
+	dscope, _ := p.decodeScope()
+	// the whole library is scanned (a nil dereference is a panic wherever it happens); the decode scope is the part
+	// C19 speaks of and is counted separately
+	scope := map[*ssa.Function]bool{}
+	for _, f := range p.TopFuncs() {
+		if !p.IsTestFile(f.Pos()) {
+			scope[f] = true
+		}
+	}
 	n, nPhi := 0, 0
 	type assume struct {
 		c ssa.Value
@@ -147,7 +155,8 @@ func ruleP14(p *Prog, r *Report) {
 			r.Ok(R, cons, p.InstrPos(in), "every path from a nil edge to the dereference is excluded by a test (of the pointer, or the condition that guarded the assignment)")
 		})
 	}
-	r.Decide(true, R, "pointer-phis-examined", "-", "dereferences of pointer phis in the decode scope: "+itoa(nPhi)+", of which with a nil edge: "+itoa(n), "")
-	r.Floor(R, "functions of the decode scope", 40, len(scope))
+	r.Decide(true, R, "pointer-phis-examined", "-", "dereferences of pointer phis in library code: "+itoa(nPhi)+", of which with a nil edge: "+itoa(n)+"; functions scanned: "+itoa(len(scope))+" (decode scope: "+itoa(len(dscope))+")", "")
+	r.Floor(R, "functions of the decode scope", 40, len(dscope))
+	r.Floor(R, "dereferences of pointer phis", 10, nPhi)
 }
 
